@@ -52,11 +52,11 @@ type Config struct {
 	Workers   int      `json:"workers"`
 	Readers   int      `json:"readers"`
 	Buffer    int      `json:"buffer"`
-	Matcher   string   `json:"matcher"` // "colon" | "always" | "re:<regex>" | "dissect:<pattern>"
+	Matcher   string   `json:"matcher"` // "colon" | "always" | "default" (matchers.AlwaysMatch) | "re:<regex>" | "dissect:<pattern>" | "dissecti:<pattern>"
 	Extract   string   `json:"extract"`
 	Ignore    []string `json:"ignore"`
 	DelaySeed uint64   `json:"delay_seed"`
-	HoldAll   bool     `json:"hold_all"` // consumer keeps every match and re-reads it after GC
+	HoldAll   bool     `json:"hold_all"`         // consumer keeps every match and re-reads it after GC
 	Gunzip    bool     `json:"gunzip,omitempty"` // files mode: -z (gzip files are decoded, plain files are read as they are)
 	Cli       bool     `json:"cli,omitempty"`    // files mode, regex / dissect matcher: also run `rare filter` (the binary) on the same files
 }
@@ -78,10 +78,10 @@ type Result struct {
 	Note      string `json:"note,omitempty"`
 	R, M, I   uint64
 	ReadErrs  int        `json:"read_errors"`
-	Matches   []MatchObs `json:"matches"`       // consumption order
+	Matches   []MatchObs `json:"matches"`                  // consumption order
 	Cli       []string   `json:"cli_stdout_hex,omitempty"` // `rare filter` stdout without and with --color (one reader, one worker)
-	Delivered []string   `json:"delivered_hex"` // reader mode: bytes the scripted reader handed over
-	ReadErr   []bool     `json:"read_err"`      // per source: stream ended in an injected error
+	Delivered []string   `json:"delivered_hex"`            // reader mode: bytes the scripted reader handed over
+	ReadErr   []bool     `json:"read_err"`                 // per source: stream ended in an injected error
 	LogTotal  int        `json:"matcher_calls"`
 	Summary   string     `json:"summary"`
 }
@@ -168,7 +168,7 @@ func Oracle(kind string) (func(b []byte) []int, map[string]int, error) {
 	switch {
 	case kind == "colon":
 		return ColonIndices, map[string]int{"k": 1, "rest": 2}, nil
-	case kind == "always":
+	case kind == "always" || kind == "default":
 		return func(b []byte) []int { return []int{0, len(b)} }, map[string]int{}, nil
 	case len(kind) > 3 && kind[:3] == "re:":
 		re, err := regexp.Compile(kind[3:])
@@ -194,6 +194,11 @@ func factoryFor(kind string, seed uint64) (*recFactory, error) {
 	case kind == "colon" || kind == "always":
 		fn, names, _ := Oracle(kind)
 		return &recFactory{seed: seed, mk: func() (func(b []byte) []int, map[string]int) { return fn, names }}, nil
+	case kind == "default": // the matcher the commands use when neither -m nor -d is given
+		return &recFactory{seed: seed, mk: func() (func(b []byte) []int, map[string]int) {
+			inst := (&matchers.AlwaysMatch{}).CreateInstance()
+			return inst.FindSubmatchIndex, inst.SubexpNameTable()
+		}}, nil
 	case len(kind) > 3 && kind[:3] == "re:":
 		c, err := fastregex.CompileEx(kind[3:], false)
 		if err != nil {
@@ -233,7 +238,7 @@ var DissectOracles = map[string]string{
 	"dissect:%{a}:%{b}:%{c}": `^(?P<a>[^:]*):(?P<b>[^:]*):(?P<c>.*)$`,
 	// --ignore-case folds ASCII letters only (documented in pkg/matchers/dissect/case.go): explicit classes,
 	// not (?i), whose Unicode folding would also accept the Kelvin sign for k and the long s for s
-	"dissecti:k=%{v};":              `[kK]=(?P<v>[^;]*);`,
+	"dissecti:k=%{v};":             `[kK]=(?P<v>[^;]*);`,
 	"dissecti:ID=%{id} user=%{u};": `[iI][dD]=(?P<id>.*?) [uU][sS][eE][rR]=(?P<u>.*?);`,
 }
 
@@ -241,7 +246,8 @@ var DissectOracles = map[string]string{
 var ErrInjected = errors.New("injected read error")
 
 // the identity of an injected failure varies with its position (any non-EOF error is a read error)
-var errKinds = []error{ErrInjected, io.ErrUnexpectedEOF, io.ErrClosedPipe, io.ErrNoProgress, io.ErrShortBuffer, syscall.EIO}
+var errKinds = []error{ErrInjected, io.ErrUnexpectedEOF, io.ErrClosedPipe, io.ErrNoProgress, io.ErrShortBuffer, syscall.EIO,
+	fmt.Errorf("read tcp 10.0.0.1:514: %w", io.EOF), &os.PathError{Op: "read", Path: "/var/log/app.log", Err: io.EOF}, errors.New("EOF")}
 
 type scriptReader struct {
 	script    []Step
@@ -490,6 +496,8 @@ func runCli(cfg Config, sources []Source, dir string) []string {
 		margs = []string{"-d", cfg.Matcher[9:], "-I"}
 	case len(cfg.Matcher) > 8 && cfg.Matcher[:8] == "dissect:":
 		margs = []string{"-d", cfg.Matcher[8:]}
+	case cfg.Matcher == "default":
+		margs = nil
 	default:
 		return nil
 	}
